@@ -132,6 +132,9 @@ def r9_angle_homogeneity(ctx):
 
 def run(ctx):
     rep = ctx.rep
+    rep.rule("C08.R10", "dependence monotonicity (K13) over every primal/derivative pair of K5: a stated derivative reads no datum its primal does not read", 30)
+    from .. import depmono as _dm
+    _dm.check_k5_pairs(ctx, "C08.R10", ['TwoPointInteraction', 'Revolute', 'KelvinVoigtElement', 'Spring', 'MaxwellElement', 'PDcontroller', 'PIDcontroller', 'Force', 'B_Force', 'Moment', 'B_Moment'])
     rep.rule("C08.R1", "chain-rule coverage of force-element / actuator derivatives (K5)", 40)
     rep.rule("C08.R2", "product rule in actuator Jacobians", 2)
     rep.rule("C08.R3", "subsystem protocol (scalar interface and kinematic calls)", 25)
